@@ -219,6 +219,8 @@ def search(f, start, goal, stop=None, edge_ok=None, eh=True, include_start=False
             i += 1
         if cut:
             continue
+        if b.raw.get("noreturn"):
+            continue        # the block ends in a call that does not return (abort, __assert_fail): no path continues, and it is not a normal exit
         if goal == "exit" and bid == f.exit:
             return back(pos, len(b.elems))
         for si, s in enumerate(b.succs):
